@@ -156,7 +156,7 @@ func c13a(c *Ctx) {
 	}
 	if !bad {
 		c.add(Result{Instance: inst, Verdict: Discharged, Evals: 5, Sites: []string{dParent.Pos(), dRename.Pos(), dFile.Pos(), writes[0].Pos()},
-			Detail: "registered parent-sync, rename, file-sync (run in reverse) before the data write",
+			Detail:    "registered parent-sync, rename, file-sync (run in reverse) before the data write",
 			Witnesses: []Witness{f.WitDelete(dParent.Node), f.WitDelete(dFile.Node)}})
 	}
 	// nothing but the return follows the write (no operation after the data write that the syncs would not cover... they run after anyway);
